@@ -2,6 +2,7 @@
 // returns, every field of the returned set are the observation. The oracle lives in checks/c19.py.
 #include "vh.hpp"
 #include <sys/wait.h>
+#include <sstream>
 VH_MAIN_GLOBALS
 using namespace vh;
 
@@ -22,7 +23,7 @@ int main(int argc, char **argv) {
     Args args(argc, argv);
     out.open(args.s("out", "-"));
     install_crash_handler();
-    int lo = args.i("lo", -5), hi = args.i("hi", 300);
+    int lo = args.i("lo", -5), hi = args.i("hi", 300), history = args.i("history", 0);
     std::vector<int32_t> lambdas;
     for (int l = lo; l <= hi; l++) lambdas.push_back(l);
     lambdas.push_back(INT32_MIN); lambdas.push_back(INT32_MAX); lambdas.push_back(INT32_MIN + 1); lambdas.push_back(65536 + 80); lambdas.push_back(-128);
@@ -34,6 +35,23 @@ int main(int argc, char **argv) {
             close(pfd[0]);
             signal(SIGABRT, SIG_DFL); signal(SIGSEGV, SIG_DFL);
             int dn = open("/dev/null", O_WRONLY); dup2(dn, 2);
+            // what happened in this process before the request must not matter
+            if (history == 1 || history == 2) {      // a custom, near-default parameter set imported through tfhe_io first
+                for (double bk: {2e-8, 0.0, 7.0e-9, 3.0e-8}) for (double ksd: {3.0e-5, 2.44e-5}) {
+                    PSet ps(history == 1 ? 630 : 500, 1024, 1, history == 1 ? 3 : 2, history == 1 ? 7 : 10, 8, 2, ksd, bk, 0.012467);
+                    std::ostringstream os; export_tfheGateBootstrappingParameterSet_toStream(os, ps.gb);
+                    std::istringstream is(os.str()); TFheGateBootstrappingParameterSet *imp = new_tfheGateBootstrappingParameterSet_fromStream(is); (void) imp;
+                }
+            } else if (history == 3) {               // the other level requested (and released) first, and this level requested twice
+                TFheGateBootstrappingParameterSet *o = new_default_gate_bootstrapping_parameters(lam <= 80 ? 128 : 80); delete_gate_bootstrapping_parameters(o);
+                TFheGateBootstrappingParameterSet *q = new_default_gate_bootstrapping_parameters(lam); delete_gate_bootstrapping_parameters(q);
+            } else if (history == 4) {               // a key set of a custom parameter set generated, exported and re-imported first
+                PSet ps(4, 1024, 1, 2, 10, 2, 2, 2.44e-5, 1e-8, 0.012467);
+                TFheGateBootstrappingSecretKeySet *k = new_random_gate_bootstrapping_secret_keyset(ps.gb);
+                std::ostringstream os; export_tfheGateBootstrappingCloudKeySet_toStream(os, &k->cloud);
+                std::istringstream is(os.str()); TFheGateBootstrappingCloudKeySet *c = new_tfheGateBootstrappingCloudKeySet_fromStream(is);
+                delete_gate_bootstrapping_cloud_keyset(c); delete_gate_bootstrapping_secret_keyset(k);
+            }
             TFheGateBootstrappingParameterSet *p = new_default_gate_bootstrapping_parameters(lam);
             std::string f = p ? fields(p) : std::string("null");
             // usable? generate the smallest things that depend on the structural constraints
@@ -45,13 +63,13 @@ int main(int argc, char **argv) {
         while ((r = read(pfd[0], buf, sizeof buf)) > 0) got.append(buf, r);
         close(pfd[0]);
         int st = 0; waitpid(pid, &st, 0);
-        J j; j.s("t", "lambda").i("lambda", lam);
+        J j; j.s("t", "lambda").i("lambda", lam).i("history", history);
         if (WIFSIGNALED(st)) j.s("status", "signal").i("signal", WTERMSIG(st));
         else if (WIFEXITED(st) && WEXITSTATUS(st) == 0 && !got.empty()) { j.s("status", "returned").raw("fields", got); }
         else j.s("status", "exit").i("code", WIFEXITED(st) ? WEXITSTATUS(st) : -1);
         out.line(j.str());
         out.evaluations++;
-        char cell[48]; snprintf(cell, sizeof cell, "lambda=%d", lam); out.cell(cell);
+        char cell[48]; snprintf(cell, sizeof cell, "lambda=%d:history%d", lam, history); out.cell(cell);
     }
     out.finish();
     return 0;
